@@ -774,6 +774,9 @@ def replay(rp):
         runs = [[n, idx] for n, idx in dict.fromkeys(cands)]
         # the same entry inside an unsorted list (valid first and last entries)
         runs += [['list', n, 0, idx, max(0, min(3, n - 1))] for n, idx in list(dict.fromkeys(cands))[:2] if n >= 1]
+        # ... and the boundary values of the property's quantifier (N, -1) in the middle / at the front of an unsorted list
+        n0 = next((n for n, _ in cands if 4 <= n <= 2000000), 16)
+        runs += [['list', n0, 0, n0, 3], ['list', n0, 3, -1, 0], ['list', n0, n0, 0, 1]]
     elif t.startswith('datasource_storage'):
         classes = []
         for fo in rp['failed_obligations']:
